@@ -1127,8 +1127,12 @@ fn pcf_map(schema: &Map<String, JsonValue>, defined_names: &mut HashSet<String>)
         // Strip off quotes surrounding "size" type, if they exist ([INTEGERS] rule).
         if k == "size" || k == "precision" || k == "scale" {
             let i = match v.as_str() {
-                Some(s) => s.parse::<i64>().expect("Only valid schemas are accepted!"),
-                None => v.as_i64().unwrap(),
+                Some(s) => s
+                    .parse::<i64>()
+                    .expect("Only valid schemas are accepted!")
+                    .to_string(),
+                // Print the number as it is: it doesn't have to fit an i64 (sizes are unsigned)
+                None => v.to_string(),
             };
             fields.push((k, format!("{}:{}", pcf_string(k), i)));
             continue;
